@@ -111,6 +111,23 @@ def body_power(case):
     require(math.isfinite(norm) and math.isfinite(wsum), f"normalisation factors not finite: {norm!r}, {wsum!r} (index {p!r}, bounds [{lo!r},{hi!r}])")
     prod = float(norm) * float(wsum)
     require(abs(prod - 1.0) <= 4 * np.finfo(float).eps, f"spectrum normalisation x weight sum = {prod!r} != 1 (index {p!r}, bounds [{lo!r},{hi!r}])")
+    # the same Spectra object after index / bounds of its spectrum were edited in place behaves like a fresh object
+    # of the edited configuration (energies AND both normalisation factors)
+    p2, lo2, hi2 = case.get("index2", 1.0), min(lo, case.get("lo2", lo)), max(hi, case.get("hi2", hi))
+    spec.config.simulation.spectrum.index = p2
+    spec.config.simulation.spectrum.lower_bound = lo2
+    spec.config.simulation.spectrum.upper_bound = hi2
+    m = min(n, 16)
+    with scripted(u[:m], raw=True):
+        with cut("Spectra (live object after editing its spectrum in place)"):
+            x_live, norm_live, w_live = spec(m)
+    fresh = _spectra({"id": "powerspectrum", "index": p2, "lower_bound": lo2, "upper_bound": hi2})
+    with scripted(u[:m], raw=True):
+        x_new, norm_new, w_new = fresh(m)
+    require(
+        np.asarray(x_live).tobytes() == np.asarray(x_new).tobytes() and float(norm_live) == float(norm_new) and float(w_live) == float(w_new),
+        f"after editing the spectrum of a live Spectra object to index {p2!r}, bounds [{lo2!r},{hi2!r}] it returns normalisation {float(norm_live)!r} x weight sum {float(w_live)!r}; a fresh object returns {float(norm_new)!r} x {float(w_new)!r}",
+    )
     if abs(p - 1.0) <= 1e-3:
         labels.add("index_near_1")
     if p == 1.0:
@@ -168,7 +185,7 @@ def _options_strategy():
 SUBCHECKS = [
     SubCheck(
         "power_law",
-        st.fixed_dictionaries({"index": index_st, "bounds": bounds_st, "n": n_st, "u": st.lists(unit_closed(), min_size=1, max_size=24)}),
+        st.fixed_dictionaries({"index": index_st, "bounds": bounds_st, "n": n_st, "u": st.lists(unit_closed(), min_size=1, max_size=24), "index2": index_st, "lo2": st.floats(6.0, 9.0), "hi2": st.floats(9.0, 12.0)}),
         body_power,
         lambda labels: bool(labels & {"index_near_1", "u_at_end", "upper==12"}),
         {"quick": 1500, "thorough": 60000},
